@@ -6,6 +6,8 @@ use crate::pdfgen::crypt::*;
 use crate::pdfgen::file::*;
 use crate::pdfgen::val::*;
 use crate::props::c03;
+use crate::props::c04::val_to_prim;
+use pdf::primitive::Primitive;
 use pdf::file::FileOptions;
 use pdf::object::{Object, PlainRef, Resolve, Stream};
 use serde_json::{json, Value};
@@ -173,6 +175,79 @@ const LENGTH: &[&str] = &["direct-int", "ref-direct-before", "ref-direct-after",
 const SDATA: &[&str] = &["abc", "empty", "binary-with-endstream", "flate-encoded"];
 const SEOL: &[&str] = &["LF", "CRLF"];
 
+/// the twins once more, through a document that is being modified: typed read, replace, typed read again. What the
+/// reference yields must not depend on how the old version was stored
+pub fn update_twin_case(ch: &mut Chooser, t: &mut Tally) {
+    use pdf::object::Updater;
+    let cached = ch.pick_free_named("cache", &["cached", "uncached"]) == 0;
+    let first_read = ch.pick_free_named("read-before-the-update", &["typed", "raw", "none"]);
+    let newv = ch.pick_free_named("new-value", &["int", "dict", "name"]);
+    let old = Val::dict(vec![("V", Val::Int(1))]);
+    let new_val = [Val::Int(2), Val::dict(vec![("V", Val::Int(2)), ("W", Val::name("x"))]), Val::name("replaced")][newv].clone();
+    let mut fb = FileBuilder::new(b"");
+    let (catalog, pages) = minimal_catalog();
+    fb.add(1, 0, &catalog);
+    fb.add(2, 0, &pages);
+    fb.add(4, 0, &old);
+    fb.add_objstm(7, &[(8, Val::Int(8)), (5, old.clone())], &ObjStmOpts::default());
+    fb.finish_stream(&[("Root", Val::r(1))], &XrefStreamOpts::new(10));
+    let bytes = fb.bytes();
+    t.evaluations += 1;
+    t.distinct.insert(fnv_mix(fnv(&bytes), (cached as u64) * 9 + first_read as u64 * 3 + newv as u64));
+    macro_rules! body {
+        ($file:expr) => {{
+            let mut file = match $file {
+                Ok(f) => f,
+                Err(e) => return Err((format!("load-error:{}", err_variant(&e)), String::new())),
+            };
+            let read = |file: &pdf::file::File<Vec<u8>, _, _, _>, id: u64, typed: bool| -> String {
+                let r = file.resolver();
+                let p = if typed { r.get::<Primitive>(pdf::object::Ref::new(PlainRef { id, gen: 0 })).map(|p| (*p).clone()) } else { r.resolve(PlainRef { id, gen: 0 }) };
+                match p {
+                    Ok(p) => show_prim(&p),
+                    Err(e) => format!("ERR:{}", err_variant(&e)),
+                }
+            };
+            if first_read < 2 {
+                let (a, b) = (read(&file, 4, first_read == 0), read(&file, 5, first_read == 0));
+                if a != b {
+                    return Err(("twins-differ-before-update".into(), format!("direct {} compressed {}", a, b)));
+                }
+            }
+            for id in [4u64, 5] {
+                if let Err(e) = file.update(PlainRef { id, gen: 0 }, val_to_prim(&new_val)) {
+                    return Err((format!("update-error:{}", err_variant(&e)), format!("object {}", id)));
+                }
+            }
+            for typed in [true, false] {
+                let (a, b) = (read(&file, 4, typed), read(&file, 5, typed));
+                if a != b {
+                    return Err(("twins-differ-after-update".into(), format!("{} read: the object that was stored directly reads {}, the one that was stored in an object stream reads {}", if typed { "typed" } else { "raw" }, a, b)));
+                }
+            }
+            Ok(())
+        }};
+    }
+    let res = catch(|| -> std::result::Result<(), (String, String)> {
+        if cached {
+            body!(FileOptions::cached().load(bytes.clone()))
+        } else {
+            body!(FileOptions::uncached().load(bytes.clone()))
+        }
+    });
+    let verdict = match res {
+        Err((loc, msg)) => Err((panic_kind(&loc), msg)),
+        Ok(r) => r,
+    };
+    match verdict {
+        Ok(()) => t.outcome("ok"),
+        Err((kind, detail)) => {
+            t.outcome(&kind);
+            t.fail("c11.update", &kind, ch.deviations(), detail, ch.replay_value("c11.update"));
+        }
+    }
+}
+
 pub fn length_case(ch: &mut Chooser, t: &mut Tally) {
     let lf = ch.pick_free_named("length", LENGTH);
     let di = ch.pick_free_named("data", SDATA);
@@ -271,13 +346,14 @@ pub fn run(tier: Tier, _seed: u64, tally: &mut Tally) -> CheckMeta {
     let bound = if tier.thorough() { 2 } else { 1 };
     explore("c11.twin", Limits::new(bound).wall(if tier.thorough() { 2400 } else { 600 }), tally, twin_case);
     explore("c11.length", Limits::new(0), tally, length_case);
+    explore("c11.update", Limits::new(0), tally, update_twin_case);
     tally.validated = tally.evaluations;
     tally.sample(json!({"engine": "c11.twin", "value": "int:7", "pos": "last", "trailing": "none-after-last", "objstm_data": "8 0 5 10\n<< /N 8 >> 7"}));
     tally.sample(json!({"engine": "c11.length", "length": "ref-compressed", "data": "abc"}));
     CheckMeta {
         prop: "C11",
         level: "model_checking",
-        rule: format!("full product of {} values (C03 catalogue: every kind, all kind pairs, depth 20) x position in the object stream {{middle, only, first, last}} x trailing white-space {{LF, SP, none after the last member, CRLF}}, with <= {} deviations among object-stream filter {{flate, hex, a85+flate, lzw}}, /First beyond the header or directly after the last offset (no separator, first member beginning with a delimiter), neighbour kinds before/after (8 alternatives each), object stream added by an incremental update, the document encrypted {{RC4-128, AES-128, AES-256}} (strings of the ordinary twin encrypted one by one, those of the compressed twin only as part of the object stream); each document holds the value as direct object 4 and compressed object 5 and both are resolved and compared with the producer's value. Streams: full product of /Length form {{direct, reference to a direct integer before/after the stream, reference to a compressed integer (plain / flate object stream)}} x data x EOL. Distinct by file hash.", c03::catalogue().vals.len(), bound),
+        rule: format!("full product of {} values (C03 catalogue: every kind, all kind pairs, depth 20) x position in the object stream {{middle, only, first, last}} x trailing white-space {{LF, SP, none after the last member, CRLF}}, with <= {} deviations among object-stream filter {{flate, hex, a85+flate, lzw}}, /First beyond the header or directly after the last offset (no separator, first member beginning with a delimiter), neighbour kinds before/after (8 alternatives each), object stream added by an incremental update, the document encrypted {{RC4-128, AES-128, AES-256}} (strings of the ordinary twin encrypted one by one, those of the compressed twin only as part of the object stream); each document holds the value as direct object 4 and compressed object 5 and both are resolved and compared with the producer's value. Streams: full product of /Length form {{direct, reference to a direct integer before/after the stream, reference to a compressed integer (plain / flate object stream)}} x data x EOL. Twins in a document that is being modified: {{cached, uncached}} x {{typed, raw, no}} read before the update x 3 new values: both twins are replaced through Updater::update and read again (typed and raw): same answers. Distinct by file hash.", c03::catalogue().vals.len(), bound),
         assumptions: vec!["members of an object stream are separated by white-space except after the last one".into()],
         exhaustive: true,
         bounds: json!({"deviations": bound}),
@@ -289,6 +365,9 @@ pub fn replay(case: &Value, tally: &mut Tally) {
     match case["engine"].as_str().unwrap_or("") {
         "c11.twin" => {
             run_one(&picks, tally, twin_case);
+        }
+        "c11.update" => {
+            run_one(&picks, tally, update_twin_case);
         }
         _ => {
             run_one(&picks, tally, length_case);
